@@ -7,6 +7,7 @@ import (
 	"math/big"
 	"math/rand"
 	"sort"
+	"strings"
 
 	vmcommon "github.com/ElrondNetwork/elrond-vm-common"
 	"github.com/ElrondNetwork/elrond-vm-common/parsers"
@@ -80,6 +81,14 @@ func NewWorld(cfg Config) (*World, error) {
 	for i := 0; i < cfg.NumUsers; i++ {
 		u.Users = append(u.Users, UserAddr(i, uint32(i)%cfg.NumShards))
 	}
+	if cfg.OddUser && len(u.Users) > 1 {
+		// an ordinary holder whose address has the shape of a per-shard system account address (30
+		// bytes 0xff, then two more): nothing in the statements sets such a holder apart
+		i := len(u.Users) - 1
+		a := bytes.Repeat([]byte{0xff}, 32)
+		a[30], a[31] = 0x0d, u.Users[i][31]
+		u.Users[i] = a
+	}
 	for i := 0; i < cfg.NumContracts; i++ {
 		u.Contracts = append(u.Contracts, ContractAddr(i, uint32(i+1)%cfg.NumShards))
 	}
@@ -105,6 +114,10 @@ func NewWorld(cfg Config) (*World, error) {
 		sfx := make([]byte, 3)
 		r.Read(sfx)
 		id := []byte(tickers[i] + "-" + hex.EncodeToString(sfx))
+		if cfg.LongIDs {
+			// the library puts no bound on identifiers: these are 60+ bytes and share their first 54
+			id = append(bytes.Repeat([]byte("L"), 54), id...)
+		}
 		u.Tokens = append(u.Tokens, &TokenInfo{ID: id, Kind: kinds[i], Roles: map[string]map[string]bool{}, Frozen: map[string]bool{}})
 	}
 	payTable := map[string]int{}
@@ -170,8 +183,12 @@ func NewWorld(cfg Config) (*World, error) {
 		dnsList = append(dnsList, string(d))
 	}
 	sort.Strings(dnsList)
+	intruder := ""
+	if cfg.HostReusesDNSMap && len(u.Users) > 0 {
+		intruder = string(u.Users[0])
+	}
 	for s := uint32(0); s < cfg.NumShards; s++ {
-		nd, err := NewNode(s, cfg.NumShards, NodeCfg{DNS: dnsList, EnableUserNameChange: cfg.NameChange, ActivationEpoch: cfg.ActivationEpoch, LateSchedule: cfg.LateSchedule},
+		nd, err := NewNode(s, cfg.NumShards, NodeCfg{DNS: dnsList, EnableUserNameChange: cfg.NameChange, ActivationEpoch: cfg.ActivationEpoch, LateSchedule: cfg.LateSchedule, DNSIntruder: intruder},
 			RandSchedule(sr, 0), cfg.StartEpoch, payTable)
 		if err != nil {
 			return nil, err
@@ -312,6 +329,22 @@ func (w *World) Apply(ev Event) bool {
 			return false
 		}
 		nd := w.Nodes[ev.Shard]
+		if ev.Probe == "direct" {
+			// the host tells some function objects a schedule directly (ev.ID: comma-separated names,
+			// empty = all); only well-formed schedules are offered this way (validation is the factory's)
+			if !ev.Sched.Valid() {
+				return false
+			}
+			names := append([]string{}, spec.AllFunctions...)
+			if ev.ID != "" {
+				names = strings.Split(ev.ID, ",")
+			}
+			sort.Strings(names)
+			n := nd.RepriceDirect(names, *ev.Sched)
+			w.Stats.Faults["schedule-told-to-function-objects-directly"] += n
+			w.logf("sched-direct shard=%d names=%q", ev.Shard, ev.ID)
+			break
+		}
 		if nd.ChangeSchedule(*ev.Sched) {
 			w.Stats.SchedAccepted++
 		} else {
@@ -368,8 +401,11 @@ func (w *World) Apply(ev Event) bool {
 	default:
 		return false
 	}
-	found := len(w.Found)
-	_ = found
+	// everything has been read from the outputs of this event's calls: their owner now uses them up
+	for _, o := range w.toConsume {
+		ConsumeOutput(o)
+	}
+	w.toConsume = w.toConsume[:0]
 	if applied && !(w.Stop()) {
 		// (after a violation the event was abandoned half-way: the world is not judged further)
 		w.CheckInvariants()
